@@ -220,7 +220,7 @@ def handle (line : String) : String :=
 
 /-! ### eval -/
 
-def evalFuel : Nat := 1000000
+def evalFuel : Nat := 200000
 
 def renderErr (st : State) (e : Err) : String :=
   match e with
@@ -362,6 +362,7 @@ partial def loop (h : IO.FS.Stream) (out : IO.FS.Stream) (base : State) : IO Uni
   let l := if line.endsWith "\n" then (line.dropEnd 1).toString else line
   let (base', ans) := handleS base l
   out.putStrLn ans
+  out.flush
   loop h out base'
 
 def main : IO Unit := do
